@@ -854,10 +854,14 @@ package fsutil
 //@ func NewFilterFS
 //@   property C10 C11 C18
 //@   modifies array string, array os.DirEntry, maps string struct{}
+//@   effects FollowedToRoot
 //@   ensures no_options: opt == nil ==> result0 == fs && result1 == nil
 //@   ensures wraps: opt != nil && result1 == nil ==> isptr(result0, filterFS) && asptr(result0, filterFS) != nil && fresh(asptr(result0, filterFS)) && asptr(result0, filterFS).fs == fs && asptr(result0, filterFS).mapFn == opt.Map
 //@   ensures exclude_matcher: opt != nil && result1 == nil ==> (asptr(result0, filterFS).excludeMatcher != nil) == (len(opt.ExcludePatterns) > 0)
 //@   ensures no_include_matcher: opt != nil && result1 == nil && opt.IncludePatterns == nil && opt.FollowPaths == nil ==> asptr(result0, filterFS).includeMatcher == nil
+// a follow-path that reaches the root needs the whole view: no include filter remains, whatever
+// include patterns the caller gave (they were kept: found and repaired, F21)
+//@   ensures root_reached_means_no_include_filter: opt != nil && result1 == nil && cnt(FollowedToRoot) > old(cnt(FollowedToRoot)) && arg(FollowedToRoot, 0) ==> asptr(result0, filterFS).includeMatcher == nil
 //@   at call FollowLinks: same_view: arg0 == fs && arg1 == opt.FollowPaths
 //@   at call patternmatcher.New#1: caller_excludes: arg0 == opt.ExcludePatterns
 
@@ -979,8 +983,10 @@ package fsutil
 // FollowLinks: the keys of the resolver's set are distinct, sort.Slice orders them by the
 // verified comparator (a strict total order, so the result is strictly ascending), which is
 // exactly the precondition of dedupePaths; the result is ascending and prefix-free.
+//@ effectdecl FollowedToRoot(reached bool)
 //@ func FollowLinks
 //@   property C18
+//@   posteffect FollowedToRoot(result0 == nil) when result1 == nil
 //@   use pathless_irrefl pathless_trans pathless_total pathless_asym
 //@   opaque specPathLess specInside
 //@   modifies array os.DirEntry, array string, maps string struct{}
